@@ -1035,6 +1035,18 @@ def call_ext(it, dotted, args, kwargs):
         return Arr([[Rat.const(1 if i == j else 0) for j in range(n)] for i in range(n)])
     if short == 'array':
         return _to_arr(it, args[0])
+    if short == 'iterable' and mod == 'numpy':
+        v = args[0]
+        if isinstance(v, (list, tuple, Arr, PolyT, str, dict, set, StrT)):
+            return True
+        if isinstance(v, (Rat, int, float, complex, Fr)) or v is None:
+            return False
+        raise Undecidable('numpy.iterable of %r' % (v,))
+    if dotted == 'operator.index':
+        n = as_int(args[0])
+        if n is None or isinstance(args[0], bool) and False:
+            raise Undecidable('operator.index of a symbolic value')
+        return n
     if short in ('asarray', 'asanyarray', 'atleast_1d') and mod == 'numpy':
         v = args[0]
         if isinstance(v, PolyT):
